@@ -122,6 +122,8 @@ func c04canonical(rng *core.Rng, n int) []c04session {
 		{Name: "copy-binary-declared-field-of-200MB", Msgs: cat([][]byte{start, pg.Query("copyb in"), pg.CopyData(append(append(append([]byte{}, c14header...), 0, 2), be(200000000)...)), pg.CopyData([]byte("only a few bytes of it ever arrive")), pg.CopyDone(), pg.Query("select 1"), pg.Terminate()})},
 		{Name: "parse-more-types-than-parameters", Msgs: cat([][]byte{start, pg.Parse("s", "select $1", []uint32{25, 0, 23, 1043, 0, 20}), pg.Describe('S', "s"), pg.Bind("p", "s", nil, [][]byte{[]byte("1")}, nil), pg.Execute("p", 0), pg.Sync(),
 			pg.Parse("", "select 1", []uint32{0, 0, 23}), pg.Describe('S', ""), pg.Sync(), pg.Terminate()})},
+		{Name: "startup-options-switches", Msgs: cat([][]byte{pg.Startup([][2]string{{"user", "u"}, {"options", "-c search_path=public -e"}}), pg.Query("select 1"), pg.Terminate()})},
+		{Name: "startup-options-bare-word", Msgs: cat([][]byte{pg.Startup([][2]string{{"options", "verbose"}, {"user", "u"}, {"database", "d"}}), pg.Query("select 1"), pg.Terminate()})},
 		{Name: "simple", Msgs: cat([][]byte{start, pg.Query("select $1 ?"), pg.Terminate()})},
 		{Name: "auth-ok", Auth: true, Msgs: cat([][]byte{start, pg.Password("pw"), pg.Query("select 1"), pg.Terminate()})},
 		{Name: "auth-rejected", Auth: true, Msgs: cat([][]byte{start, pg.Password("nope"), pg.Query("select 1")})},
@@ -173,7 +175,7 @@ func (ch c04) Run(c *core.Ctx) {
 	envTLS := hs.Start(hs.Parse, wire.MessageBufferSize(c04L), wire.TLSConfig(hs.ServerTLS()))
 	envs := c04envs{plain: hs.Start(hs.Parse, wire.MessageBufferSize(c04L)), auth: hs.Start(hs.Parse, wire.MessageBufferSize(c04L), wire.SessionAuthStrategy(wire.ClearTextPassword(c04validator)))}
 	nb := ch.Batches(c.Tier)
-	ncanon, nmut := 19, 2500
+	ncanon, nmut := 21, 2500
 	if c.Tier == "thorough" {
 		ncanon, nmut = 40, 400000
 	}
